@@ -22,6 +22,10 @@ open Glom Glom.C13
     the builtin ops, then the default types; `register` and `register_op` end with the memo
     reset; `_get_matching_types` collects the deepest match of every branch and
     `_get_closest_type` drops strict superclasses and takes the MRO-minimum;
+    `register` and `register_op` validate first and write afterwards (every write to
+    `_op_type_map` / `_op_type_tree` / `_type_cache` follows the last `raise`; the only earlier
+    write is the `setdefault` of an empty per-op table), `get_handler` raises for a failed lookup
+    *before* the memo write (the memo holds only answers that were returned);
     `_register_fuzzy_type` only creates a node that does not exist; `Glommer.__init__` builds its
     own registry and copies the ops of the registry it is created from; `register()` /
     `Glommer.register` delegate to their registry — and `isinstance` / `issubclass` / `__mro__`
@@ -241,16 +245,144 @@ theorem c13_immediate (H : Hier) (r : Reg) (t : Ty) (e : Bool) (kw : List (Op ×
   · simp [hn]
   · simp [hn]
 
+/-- **`register_op()` takes effect for the very next lookup** as well: a known type without a
+    handler for the op is served by the auto-discovered one, whatever the memo held (in
+    particular after a lookup that failed because nobody had registered the op yet). -/
+theorem c13_immediate_op (H : Hier) (r : Reg) (op : Op) (auto : String) (e : Bool) (order : List Ty)
+    (t : Ty) (ht : t ∈ order) (hno : odGet t (r.map op) = none) (re : Bool) :
+    (getHandler H (registerOp H r op auto e order) op t re).2 =
+      if (H.auto auto t).isNone && re then Answer.unregistered else Answer.ret (H.auto auto t) := by
+  have hval := fillAuto_value H auto t order (r.map op)
+  rw [hno] at hval
+  simp only [ht, if_true] at hval
+  have hmap : odGet t ((registerOp H r op auto e order).map op) = some (H.auto auto t) := by
+    simpa [Glom.C13.registerOp, Reg.map, odGet_odSet_same] using hval
+  have hne : ((registerOp H r op auto e order).map op).isEmpty = false := by
+    cases hm : (registerOp H r op auto e order).map op with
+    | nil => rw [hm] at hmap; simp [odGet] at hmap
+    | cons a l => rfl
+  have hres : resolve H (registerOp H r op auto e order) op t = some (H.auto auto t) := by
+    unfold resolve; simp [hne, hmap]
+  have hcache : (registerOp H r op auto e order).cache = [] := rfl
+  unfold getHandler
+  rw [hcache]
+  simp only [odGet, hres]
+  by_cases hn : ((H.auto auto t).isNone && re) = true
+  · simp [hn]
+  · simp [hn]
+
+/-- **A registration erases every trace of the lookups before it** — successful or failed,
+    memoised or not, under either memo policy (`sm = false`: the code that exists; `sm = true`: failed
+    lookups are memoised too): the registry after `lookups; register(…)` *is* the registry after
+    `register(…)` alone.  (With `c13_immediate` / `c13_immediate_op`: a lookup that failed before
+    the registration that makes it succeed cannot keep failing.)  This is where the memo reset at
+    the end of `register` and `register_op` is needed — see the counter-example below. -/
+theorem c13_registration_forgets_lookups (H : Hier) (sm : Bool) (r : Reg) (ls : List (Op × Ty × Bool)) :
+    (∀ t e kw, registerChecked H (lookupsOn sm H r ls) t e kw =
+        ((registerChecked H r t e kw).2.elim (registerChecked H r t e kw).1 (fun _ => lookupsOn sm H r ls),
+         (registerChecked H r t e kw).2)) ∧
+    (∀ t e kw, register H (lookupsOn sm H r ls) t e kw = register H r t e kw) ∧
+    (∀ op a e ord, registerOp H (lookupsOn sm H r ls) op a e ord = registerOp H r op a e ord) := by
+  have hq := lookupsOn_eqC sm H ls r
+  refine ⟨?_, fun t e kw => register_eq_of_eqC hq H t e kw,
+    fun op a e ord => registerOp_eq_of_eqC hq H op a e ord⟩
+  intro t e kw
+  unfold registerChecked
+  rw [hq.1, hq.2.2]
+  cases firstInvalid (newOpMap H r.typeMap r.autoMap t kw) with
+  | some op => rfl
+  | none => simp [Option.elim, register_eq_of_eqC hq H t e kw]
+
+/-- **Either memo policy answers like the un-memoised lookup** on every registry reachable by a
+    history (`Rel`): memoising failed lookups as well would be harmless *because* every
+    registration resets the memo. -/
+theorem c13_memo_policy_irrelevant (H : Hier) (hH : HierFacts H) (r : Reg) (ρ : RefReg) (h : Rel H r ρ)
+    (sm : Bool) (op : Op) (t : Ty) (re : Bool) :
+    (getHandlerV sm H r op t re).2.handler = resolve H r op t ∧
+    answerOk (refAnswers H ρ op t) (getHandlerV sm H r op t re).2 = true ∧
+    Rel H (getHandlerV sm H r op t re).1 ρ :=
+  ⟨(rel_getHandlerV hH h sm op t re).2.2, (rel_getHandlerV hH h sm op t re).2.1,
+   (rel_getHandlerV hH h sm op t re).1⟩
+
+/-- the code that exists is the policy `false` (extracted fact `c13MemoStoresOnlySuccess`) -/
+theorem c13_getHandler_policy (H : Hier) (r : Reg) (op : Op) (t : Ty) (re : Bool) :
+    getHandlerV false H r op t re = getHandler H r op t re := getHandlerV_false H r op t re
+
+/-- **A rejected `register()` call is a no-op**: the call is either applied in full or it raises
+    TypeError — exactly when one of the handlers it would store is neither `False` nor callable —
+    and then the registry (tables, trees *and* memo) is the one before the call. -/
+theorem c13_rejected_register_noop (H : Hier) (r : Reg) (t : Ty) (e : Bool) (kw : List (Op × Handler)) :
+    ((registerChecked H r t e kw).2 = none ∧ (registerChecked H r t e kw).1 = register H r t e kw ∧
+      ∀ p ∈ newOpMap H r.typeMap r.autoMap t kw, invalidH p.2 = false) ∨
+    ((registerChecked H r t e kw).2 ≠ none ∧ (registerChecked H r t e kw).1 = r ∧
+      ∃ p ∈ newOpMap H r.typeMap r.autoMap t kw, invalidH p.2 = true) := by
+  unfold registerChecked firstInvalid
+  cases hf : (newOpMap H r.typeMap r.autoMap t kw).find? (fun p => invalidH p.2) with
+  | none =>
+    refine Or.inl ⟨rfl, rfl, fun p hp => ?_⟩
+    have := List.find?_eq_none.1 hf p hp
+    simpa using this
+  | some p =>
+    refine Or.inr ⟨by simp, rfl, p, List.mem_of_find?_eq_some hf, ?_⟩
+    simpa using List.find?_some hf
+
+/-- the same for `register_op()` -/
+theorem c13_rejected_register_op_noop (H : Hier) (r : Reg) (op : Op) (a : String) (e : Bool)
+    (order : List Ty) :
+    ((registerOpChecked H r op a e order).2 = none ∧
+      (registerOpChecked H r op a e order).1 = registerOp H r op a e order) ∨
+    ((registerOpChecked H r op a e order).2 ≠ none ∧ (registerOpChecked H r op a e order).1 = r ∧
+      ∃ t ∈ order, odGet t (r.map op) = none ∧ invalidH (H.auto a t) = true) := by
+  unfold registerOpChecked firstInvalidAuto
+  cases hf : order.find? (fun t => (odGet t (r.map op)).isNone && invalidH (H.auto a t)) with
+  | none => exact Or.inl ⟨rfl, rfl⟩
+  | some t =>
+    have hp := List.find?_some hf
+    simp only [Bool.and_eq_true, Option.isNone_iff_eq_none] at hp
+    exact Or.inr ⟨by simp, rfl, t, List.mem_of_find?_eq_some hf, hp.1, hp.2⟩
+
+/-- **In histories**: a rejected call — `register()` / `register_op()` refused on a handler, or a
+    call refused on its arguments alone — leaves the whole process (every registry, every memo)
+    as it was, so *every* later lookup, after *any* further history, answers as if the call had
+    never been made. -/
+theorem c13_rejected_history (H : Hier) (w : List Reg) (a : Action) (post : List Action)
+    (hrej : match a with
+      | .register i t e kw => ∀ r, w[i]? = some r → (registerChecked H r t e kw).2 ≠ none
+      | .registerOp i op au e ord => ∀ r, w[i]? = some r → (registerOpChecked H r op au e ord).2 ≠ none
+      | .badCall .. => True
+      | .lookup .. => False) :
+    run H w (a :: post) = none :: run H w post ∧ finalWorld H w (a :: post) = finalWorld H w post := by
+  cases a with
+  | lookup i op t re => exact hrej.elim
+  | badCall i err => exact ⟨rfl, rfl⟩
+  | register i t e kw =>
+    have hw : updateAt (fun r => (registerChecked H r t e kw).1) i w = w := by
+      apply updateAt_fix
+      intro r hr
+      rcases c13_rejected_register_noop H r t e kw with h | h
+      · exact absurd h.1 (hrej r hr)
+      · exact h.2.1
+    simp only [run, finalWorld, step, hw, and_self]
+  | registerOp i op au e ord =>
+    have hw : updateAt (fun r => (registerOpChecked H r op au e ord).1) i w = w := by
+      apply updateAt_fix
+      intro r hr
+      rcases c13_rejected_register_op_noop H r op au e ord with h | h
+      · exact absurd h.1 (hrej r hr)
+      · exact h.2.1
+    simp only [run, finalWorld, step, hw, and_self]
+
 /-- **Isolation**: an action on one registry leaves every other registry of the process exactly
     as it was (so a Glommer neither affects nor is affected by the module registry or another
     Glommer). -/
 theorem c13_isolation (H : Hier) (w : List Reg) (a : Action) (j : Nat)
     (hj : (match a with
-      | .register i .. => i | .registerOp i .. => i | .lookup i .. => i) ≠ j) :
+      | .register i .. => i | .registerOp i .. => i | .lookup i .. => i | .badCall i .. => i) ≠ j) :
     (step H w a).1[j]? = w[j]? := by
   cases a with
   | register i t e kw => exact updateAt_get_ne _ w i j hj
   | registerOp i op au e ord => exact updateAt_get_ne _ w i j hj
+  | badCall i err => rfl
   | lookup i op t re =>
     simp only [step]
     cases hi : w[i]? with
@@ -341,6 +473,48 @@ example : checkC13 exH exSetup [] [.registry true]
     (run exH [freshReg exH exSetup true]
       (exActs ++ [.lookup 0 "get" "X" true, .lookup 0 "get" "X" false, .lookup 0 "get" "M" true])) = true := by
   decide
+
+/-! #### failed lookups and rejected registrations -/
+
+-- a rejected registration (the `keys` handler is not callable; `get` sorts before it and is fine):
+-- TypeError, and the registry is the one before the call — B2 is still served by A's handler
+example : registerChecked exH exReg "B2" false [("get", some "hB2"), ("keys", some "!bad")] =
+    (exReg, some (.badHandler "keys")) := by decide
+example : (getHandler exH (registerChecked exH exReg "B2" false
+    [("get", some "hB2"), ("keys", some "!bad")]).1 "get" "B2" true).2 = .ret (some "hA") := by decide
+-- … the hypothesis of `c13_rejected_history` holds for it, and the same call without the bad
+-- handler is accepted and takes effect at once
+example : (registerChecked exH exReg "B2" false [("get", some "hB2")]).2 = none := by decide
+example : (getHandler exH (registerChecked exH exReg "B2" false [("get", some "hB2")]).1
+    "get" "B2" true).2 = .ret (some "hB2") := by decide
+-- an auto-discovery function that refuses a known type: `register_op` is rejected as a whole
+private def exTabBad : HierTab :=
+  { exTab with auto := exTab.auto ++ [("auto_bad", [("object", "h"), ("A", "h"), ("B", "!raise"), ("M", "h"),
+                                                       ("V", "h")])] }
+example : registerOpChecked exTabBad.toHier exReg "uop" "auto_bad" false ["object", "A", "M", "V", "B"] =
+    (exReg, some (.badAuto "B")) := by decide
+-- a lookup that fails because nobody registered the op yet, then `register_op`, then the same
+-- lookup (`c13_immediate_op`, `c13_registration_forgets_lookups`), under both memo policies
+example : (getHandler exH exReg "uop" "B" true).2 = .unregistered := by decide
+example : (getHandlerV true exH exReg "uop" "B" true).1.cache = [(("B", "uop"), none)] := by decide
+example : (getHandlerV false exH exReg "uop" "B" true).1.cache = [] := by decide
+example : ∀ sm, (getHandlerV sm exH (registerOp exH (lookupsOn sm exH exReg [("uop", "B", true)])
+    "uop" "auto_get" false ["object", "A", "M", "V", "B"]) "uop" "B" true).2 = .ret (some "getattr") := by
+  decide
+
+/-- **Counter-example for the memo reset** (the hypothesis `Rel.cache` of
+    `c13_memo_policy_irrelevant`, established by the reset at the end of `register` /
+    `register_op`): if `register_op` kept the memo, then under the policy that memoises failed
+    lookups the earlier failed lookup of `("B", "uop")` would still answer "unregistered" although a
+    handler now exists (under the policy of the code that exists the same happens after a failed
+    lookup with `raise_exc=False`). -/
+private def exKeepMemo (sm : Bool) : Reg :=
+  { registerOp exH exReg "uop" "auto_get" false ["object", "A", "M", "V", "B"] with
+    cache := (getHandlerV sm exH exReg "uop" "B" sm).1.cache }
+example : (getHandlerV true exH (exKeepMemo true) "uop" "B" true).2 = .unregistered ∧
+    resolve exH (exKeepMemo true) "uop" "B" = some (some "getattr") := by decide
+example : (getHandlerV false exH (exKeepMemo false) "uop" "B" true).2 = .ret none ∧
+    resolve exH (exKeepMemo false) "uop" "B" = some (some "getattr") := by decide
 
 /-- **Counter-example for the hypothesis `inst_sub`** (forced by `matching_complete`): a "class"
     whose `isinstance` is inherited duck typing — `isinstance(q, R2)` holds for every object with a
